@@ -68,10 +68,16 @@ Definition fvop2_row (a : arch) (op : Z) : option vrow :=
   end.
 Definition fvop1_row (op : Z) : option vrow :=
   match op with
+  | 4 => Some (mkVR 1 B32 B32 B32 (Some B64) SNone DNone (fun a _ _ _ => f64_of_Z (sg a)) nof all3)   (* V_CVT_F64_I32: exact *)
+  | 15 => Some (mkVR 1 B64 B32 B32 (Some B32) SNone DNone (fun a _ _ _ => f32_of_f64 a) nof all3)     (* V_CVT_F32_F64: round to nearest even *)
+  | 16 => Some (mkVR 1 B32 B32 B32 (Some B64) SNone DNone (fun a _ _ _ => f64_of_f32 a) nof all3)     (* V_CVT_F64_F32: exact *)
+  | 22 => Some (mkVR 1 B32 B32 B32 (Some B64) SNone DNone (fun a _ _ _ => f64_of_Z a) nof all3)       (* V_CVT_F64_U32: exact *)
   | 5 => Some (op1 (fun x => f32_of_Z (sg x)))                          (* V_CVT_F32_I32 *)
   | 6 => Some (op1 f32_of_Z)                                            (* V_CVT_F32_U32 *)
   | 7 => Some (op1 cvt_u32_f32)                                         (* V_CVT_U32_F32 *)
   | 8 => Some (op1 cvt_i32_f32)                                         (* V_CVT_I32_F32 *)
+  | 28 => Some (op1 f32_truncf)                               (* V_TRUNC_F32: integer part, toward zero *)
+  | 30 => Some (op1 f32_rndne)                               (* V_RNDNE_F32: nearest integer, ties to even *)
   | _ => None
   end.
 Definition fvop3a_row (op : Z) : option vrow :=
@@ -79,6 +85,8 @@ Definition fvop3a_row (op : Z) : option vrow :=
   | 258 => Some (fop2 f32_sub) | 261 => Some (fop2 f32_mul)
   | 449 => Some (fop3 (fun x y z => f32_add (f32_mul x y) z))                        (* V_MAD_F32: two roundings *)
   | 459 => Some (fop3 f32_fma)                                                       (* V_FMA_F32: one rounding *)
+  | 640 => Some (mkVR 2 B64 B64 B32 (Some B64) SNone DNone (fun a b _ _ => f64_add a b) nof all3)   (* V_ADD_F64 *)
+  | 641 => Some (mkVR 2 B64 B64 B32 (Some B64) SNone DNone (fun a b _ _ => f64_mul a b) nof all3)   (* V_MUL_F64 *)
   | _ => fcmp_row DDst op
   end.
 
